@@ -11,6 +11,17 @@ ENTRY = "spl_frontend::table::Entry"
 GENTRY = "spl_frontend::table::GlobalEntry"
 
 
+def _is_cursor_ident(c, key_expr):
+    """Is the lookup key `<x>.value` where x is the identifier under the cursor (type features::Ident)?"""
+    e = hir.strip_ref(key_expr)
+    if e.get("k") == "Field" and e["name"] == "value":
+        t = hir.peel(c, e["base"]["t"])
+        for a in e["base"].get("adj") or []:
+            t = hir.peel(c, a["to"])
+        return t["k"] == "adt" and t["p"] == "lsp4spl::features::Ident"
+    return False
+
+
 def feature_bodies(prog):
     c = prog.lsp
     return [b for b in c.bodies if b["p"].startswith("lsp4spl::features") and "/tests" not in c.file_of(b["sp"])
@@ -113,7 +124,7 @@ def rule_scope_order(prog):
                     src = "None"
                 out.add(b["d"], "LookupTable for `%s` is built from the enclosing procedure's local table" % kp.split("#")[0],
                         ok, bc.loc(n["sp"]), "local_table = %s, procedure context = %s" % (src, proc_bind), ("site",))
-            elif recv_t == GT and proc_bind is not None and ".value" in kp and kp.split(".")[0].startswith("ident#"):
+            elif recv_t == GT and proc_bind is not None and _is_cursor_ident(bc, n["args"][0]):
                 n_sites += 1
                 out.add(b["d"], "cursor identifier is not resolved against the global table inside a procedure", False,
                         bc.loc(n["sp"]),
@@ -146,12 +157,50 @@ def rule_scope_order(prog):
             if n.get("k") == "MethodCall" and n["m"] == "lookup" and n["args"] and _recv_adt(bc, n) == GT:
                 kp = place(hir.strip_ref(n["args"][0])) or ""
                 in_proc_arm = any(p.get("k") == "Arm" and hir.pat_variant(p["pat"]) == GENTRY + "::Procedure" for p in parents)
-                if kp.startswith("ident#") and in_proc_arm:
+                is_cur = _is_cursor_ident(bc, n["args"][0])
+                if is_cur and in_proc_arm:
                     continue  # already reported above
-                if kp.startswith("ident#") and not any(p.get("k") == "Arm" and hir.pat_variant(p["pat"]) == GENTRY + "::Type" for p in parents):
+                if is_cur and not any(p.get("k") == "Arm" and hir.pat_variant(p["pat"]) == GENTRY + "::Type" for p in parents):
                     n_sites += 1
                     out.add(b["d"], "cursor identifier is not resolved against the global table where a local table is in scope",
                             False, bc.loc(n["sp"]), "global lookup of the cursor identifier next to a procedure's local table", ("site",))
+    # (4) while a LookupTable with the procedure's local table is in scope, nothing is resolved directly against the
+    #     global table - except the creator of an array type, which always names a global type declaration
+    for b in feature_bodies(prog):
+        bc = b["_crate"]
+        for blk in hir.nodes(b["body"], "Block"):
+            live_from = None
+            for i, st in enumerate(blk["stmts"]):
+                if st.get("k") == "Let" and st.get("init") is not None:
+                    for lit in hir.nodes(st["init"], "Struct"):
+                        if lit.get("adt") == LT:
+                            f = {x["name"]: x["e"] for x in lit["fields"]}
+                            ltv = hir.strip(f.get("local_table", {}))
+                            if not (ltv.get("k") == "Path" and last(ltv["res"].get("ctor_of", "")) == "None"):
+                                live_from = i
+                                break
+                if live_from is not None:
+                    break
+            if live_from is None:
+                continue
+            rest = blk["stmts"][live_from + 1:] + ([blk["expr"]] if blk.get("expr") else [])
+            for st in rest:
+                for lk in hir.nodes(st, "MethodCall"):
+                    if lk["m"] != "lookup" or not lk["args"]:
+                        continue
+                    kl = hir.path_local(hir.strip_ref(lk["args"][0]))
+                    is_creator = bool(kl) and kl["name"] == "creator"
+                    recv_t = _recv_adt(bc, lk)
+                    if is_creator:
+                        n_sites += 1
+                        out.add(b["d"], "the creator of an array type is resolved against the global table", recv_t == GT, bc.loc(lk["sp"]),
+                                "DataType::Array.creator names a global type declaration; resolved through the scoped table a local "
+                                "variable or parameter of the same name hides it", ("site",))
+                    elif recv_t == GT:
+                        n_sites += 1
+                        out.add(b["d"], "no direct global lookup while the procedure's LookupTable is in scope", False, bc.loc(lk["sp"]),
+                                "a name inside a procedure is looked up in the global table although a LookupTable with the "
+                                "procedure's local table is at hand: locals and parameters no longer shadow globals", ("site",))
     if n_sites < 5:
         out.missing("LookupTable lookups in feature handlers (found %d)" % n_sites)
     return out
@@ -202,10 +251,17 @@ def rule_entry_guard(prog):
             before, anc = _dominating_stmts(b["body"], call)
             guarded = None
             why = ""
-            # (a) `<entry>.is_default()` early return, for this entry
+            # (a) `<entry>.is_default()` early return, for this entry (possibly through a local bool)
+            bools = {}
+            for s in before:
+                if s.get("k") == "Let" and s["pat"].get("k") == "Binding" and s.get("init") is not None:
+                    bools[s["pat"]["id"]] = s["init"]
             for s in before:
                 for iff in hir.nodes(s, "If"):
                     cond = hir.strip(iff["cond"])
+                    pl_ = hir.path_local(cond)
+                    if pl_ and pl_["id"] in bools:
+                        cond = hir.strip(bools[pl_["id"]])
                     if cond.get("k") == "MethodCall" and cond["m"] == "is_default" and _returns_none(iff["then"]):
                         subj = hir.strip_ref(cond["recv"])
                         sp_ = place(subj)
@@ -466,7 +522,7 @@ def rule_semtok_pairing(prog):
     for b in fns:
         prev = None
         for p in b["params"]:
-            if p.get("k") == "Binding" and p["name"] == "previous_token_pos":
+            if p.get("k") == "Binding" and c.tstr(p["bt"]).replace(" ", "") in ("&mutlsp_types::Position",):
                 prev = "%s#%s" % (p["name"], p["id"])
         clos = [n for n in hir.nodes(b["body"], "Closure")]
         if prev is None or not clos:
@@ -527,6 +583,18 @@ def rule_fmt_pure(prog):
                 bad.append((b, n))
     out.add("formatting::fmt", "output does not depend on byte positions of the input layout", not bad,
             c.loc(bad[0][1]["sp"]) if bad else "", "the printer reads Token.range: two layouts of the same token sequence can then format differently")
+    ind = [b for b in fmt_bodies if b["name"] == "indentation"]
+    if not ind:
+        out.missing("FormattingOptions::indentation")
+    else:
+        ok = False
+        for call in hir.nodes(ind[0]["body"], "Call"):
+            if last(hir.callee(call) or "") == "from_elem" and len(call["args"]) == 2:
+                a0, a1 = place(call["args"][0]) or "", place(call["args"][1]) or ""
+                ok = a0.endswith(".indent_symbol") and a1.endswith(".indent_depth")
+        reps = [x for x in hir.nodes(ind[0]["body"], "Repeat")]
+        out.add("FormattingOptions::indentation", "one indentation level = indent_symbol repeated exactly indent_depth times", ok, c.loc(ind[0]["sp"]),
+                "the unit must be exactly the requested one (tabSize 0 means no indentation)")
     f = prog.body("lsp4spl::features::formatting::format")
     if f is None:
         out.missing("formatting::format")
